@@ -17,6 +17,8 @@ import (
 
 	"github.com/dave/dst"
 	"github.com/dave/dst/decorator"
+	"github.com/dave/dst/decorator/resolver/gotypes"
+	"github.com/dave/dst/decorator/resolver/simple"
 	"pgregory.net/rapid"
 
 	"verif/internal/gen"
@@ -175,118 +177,125 @@ func check(sub string) func(t h.TB, c Case) {
 		})
 		// judge every file after ALL have been restored (earlier files must stay intact)
 		for _, r := range all {
-			af := r.f
-			tf := fset.File(af.Package)
-			if tf == nil || tf.Name() != r.name {
-				h.Fail(t, sub, c, "%s: package position %d is not inside the file registered for it", r.name, af.Package)
+			judgeFile(t, sub, c, fset, r.f, r.name, r.src)
+		}
+	}
+}
+
+// judgeFile checks one restored file against the FileSet and against a fresh parse of its print.
+func judgeFile(t h.TB, sub string, c interface{}, fset *token.FileSet, af *ast.File, name, src string) {
+	tf := fset.File(af.Package)
+	if tf == nil || tf.Name() != name {
+		h.Fail(t, sub, c, "%s: package position %d is not inside the file registered for it", name, af.Package)
+	}
+	inFile := func(what string, p token.Pos) {
+		if !p.IsValid() {
+			return
+		}
+		if int(p) < tf.Base() || int(p) > tf.Base()+tf.Size() {
+			other := fset.File(p)
+			on := "no file"
+			if other != nil {
+				on = other.Name()
 			}
-			inFile := func(what string, p token.Pos) {
-				if !p.IsValid() {
-					return
-				}
-				if int(p) < tf.Base() || int(p) > tf.Base()+tf.Size() {
-					other := fset.File(p)
-					on := "no file"
-					if other != nil {
-						on = other.Name()
-					}
-					h.Fail(t, sub, c, "%s: position %d of %s lies outside its file [%d,%d] (in %s)", r.name, p, what, tf.Base(), tf.Base()+tf.Size(), on)
-				}
+			h.Fail(t, sub, c, "%s: position %d of %s lies outside its file [%d,%d] (in %s)", name, p, what, tf.Base(), tf.Base()+tf.Size(), on)
+		}
+	}
+	ps := positions(af)
+	for _, p := range ps {
+		inFile(p.path, p.pos)
+	}
+	cs := comments(af)
+	for i, cm := range cs {
+		inFile("comment "+cm.Text, cm.Slash)
+		inFile("end of comment "+cm.Text, cm.End())
+		if i > 0 && cs[i-1].Slash >= cm.Slash {
+			h.Fail(t, sub, c, "%s: comments not in source order: %q at %d before %q at %d", name, cs[i-1].Text, cs[i-1].Slash, cm.Text, cm.Slash)
+		}
+	}
+	// single-line tokens end on their own line
+	ast.Inspect(af, func(n ast.Node) bool {
+		switch n := n.(type) {
+		case *ast.Ident:
+			if n.Pos().IsValid() && n.Name != "" && tf.Line(n.Pos()) != tf.Line(n.End()-1) {
+				h.Fail(t, sub, c, "%s: identifier %s starts on line %d and ends on line %d", name, n.Name, tf.Line(n.Pos()), tf.Line(n.End()-1))
 			}
-			ps := positions(af)
-			for _, p := range ps {
-				inFile(p.path, p.pos)
+		case *ast.BasicLit:
+			if n.Pos().IsValid() && !strings.Contains(n.Value, "\n") && len(n.Value) > 0 && tf.Line(n.Pos()) != tf.Line(n.End()-1) {
+				h.Fail(t, sub, c, "%s: literal %s starts on line %d and ends on line %d", name, n.Value, tf.Line(n.Pos()), tf.Line(n.End()-1))
 			}
-			cs := comments(af)
-			for i, cm := range cs {
-				inFile("comment "+cm.Text, cm.Slash)
-				inFile("end of comment "+cm.Text, cm.End())
-				if i > 0 && cs[i-1].Slash >= cm.Slash {
-					h.Fail(t, sub, c, "%s: comments not in source order: %q at %d before %q at %d", r.name, cs[i-1].Text, cs[i-1].Slash, cm.Text, cm.Slash)
-				}
-			}
-			// single-line tokens end on their own line
-			ast.Inspect(af, func(n ast.Node) bool {
-				switch n := n.(type) {
-				case *ast.Ident:
-					if n.Pos().IsValid() && n.Name != "" && tf.Line(n.Pos()) != tf.Line(n.End()-1) {
-						h.Fail(t, sub, c, "%s: identifier %s starts on line %d and ends on line %d", r.name, n.Name, tf.Line(n.Pos()), tf.Line(n.End()-1))
-					}
-				case *ast.BasicLit:
-					if n.Pos().IsValid() && !strings.Contains(n.Value, "\n") && len(n.Value) > 0 && tf.Line(n.Pos()) != tf.Line(n.End()-1) {
-						h.Fail(t, sub, c, "%s: literal %s starts on line %d and ends on line %d", r.name, n.Value, tf.Line(n.Pos()), tf.Line(n.End()-1))
-					}
-				}
-				return true
-			})
-			// printable, repeatedly, with identical bytes
-			var b1, b2 bytes.Buffer
-			var e1, e2 error
-			h.Guard(t, sub, c, func() {
-				e1 = format.Node(&b1, fset, af)
-				e2 = format.Node(&b2, fset, af)
-			})
-			if e1 != nil || e2 != nil {
-				h.Fail(t, sub, c, "%s: restored ast does not print: %v %v", r.name, e1, e2)
-			}
-			if !bytes.Equal(b1.Bytes(), b2.Bytes()) {
-				h.Fail(t, sub, c, "%s: printing the restored ast twice gives different bytes", r.name)
-			}
-			// rank order vs a fresh parse of the printed text
-			pf, err := parser.ParseFile(token.NewFileSet(), "", b1.Bytes(), parser.ParseComments)
-			if err != nil {
-				h.Fail(t, sub, c, "%s: printed text does not parse: %v", r.name, err)
-			}
-			qs := positions(pf)
-			if len(qs) != len(ps) {
-				// format.Node sorted / merged import specs, or the shape changed: C03's business
-				h.Exclude("printed text has another shape (import sorting)")
-				continue
-			}
-			var P, Q []token.Pos
-			var names []string
-			for i := range ps {
-				if ps[i].path != qs[i].path {
-					h.Exclude("printed text has another shape (import sorting)")
-					P = nil
-					break
-				}
-				if ps[i].pos.IsValid() && qs[i].pos.IsValid() {
-					P, Q, names = append(P, ps[i].pos), append(Q, qs[i].pos), append(names, ps[i].path)
-				}
-			}
-			if P == nil {
-				continue
-			}
-			// comments, paired by text when texts are unique
-			pc := comments(pf)
-			uniq := map[string]int{}
-			for _, cm := range cs {
-				uniq[cm.Text]++
-			}
-			byText := map[string]token.Pos{}
-			for _, cm := range pc {
-				byText[cm.Text] = cm.Slash
-			}
-			for _, cm := range cs {
-				if q, ok := byText[cm.Text]; ok && uniq[cm.Text] == 1 {
-					P, Q, names = append(P, cm.Slash), append(Q, q), append(names, "comment "+cm.Text)
-				}
-			}
-			if known.GenericAlias([]byte(r.src)) {
-				// open finding KF-3: dst orders '=' before the type parameter list of a TypeSpec
-				h.KnownHit("KF-3")
-				continue
-			}
-			rp, rq := ranks(P), ranks(Q)
-			for i := range rp {
-				if rp[i] != rq[i] {
-					// find a concrete inverted pair for the message
-					for j := range rp {
-						if (P[i] < P[j]) != (Q[i] < Q[j]) || (P[i] == P[j]) != (Q[i] == Q[j]) {
-							h.Fail(t, sub, c, "%s: relative order differs from a fresh parse: %s (restored %d, parsed %d) vs %s (restored %d, parsed %d)", r.name, names[i], P[i], Q[i], names[j], P[j], Q[j])
-						}
-					}
+		}
+		return true
+	})
+	// printable, repeatedly, with identical bytes
+	var b1, b2 bytes.Buffer
+	var e1, e2 error
+	h.Guard(t, sub, c, func() {
+		e1 = format.Node(&b1, fset, af)
+		e2 = format.Node(&b2, fset, af)
+	})
+	if e1 != nil || e2 != nil {
+		h.Fail(t, sub, c, "%s: restored ast does not print: %v %v", name, e1, e2)
+	}
+	if !bytes.Equal(b1.Bytes(), b2.Bytes()) {
+		h.Fail(t, sub, c, "%s: printing the restored ast twice gives different bytes", name)
+	}
+	// rank order vs a fresh parse of the printed text
+	pf, err := parser.ParseFile(token.NewFileSet(), "", b1.Bytes(), parser.ParseComments)
+	if err != nil {
+		h.Fail(t, sub, c, "%s: printed text does not parse: %v", name, err)
+	}
+	qs := positions(pf)
+	if len(qs) != len(ps) {
+		// format.Node sorted / merged import specs, or the shape changed: C03's business
+		h.Exclude("printed text has another shape (import sorting)")
+		return
+	}
+	var P, Q []token.Pos
+	var names []string
+	for i := range ps {
+		if ps[i].path != qs[i].path {
+			h.Exclude("printed text has another shape (import sorting)")
+			P = nil
+			break
+		}
+		if ps[i].pos.IsValid() && qs[i].pos.IsValid() {
+			P, Q, names = append(P, ps[i].pos), append(Q, qs[i].pos), append(names, ps[i].path)
+		}
+		if ps[i].pos.IsValid() && !qs[i].pos.IsValid() {
+			h.Fail(t, sub, c, "%s: %s has a position (%d) in the restored ast, but the printed text has no such token", name, ps[i].path, ps[i].pos)
+		}
+	}
+	if P == nil {
+		return
+	}
+	// comments, paired by text when texts are unique
+	pc := comments(pf)
+	uniq := map[string]int{}
+	for _, cm := range cs {
+		uniq[cm.Text]++
+	}
+	byText := map[string]token.Pos{}
+	for _, cm := range pc {
+		byText[cm.Text] = cm.Slash
+	}
+	for _, cm := range cs {
+		if q, ok := byText[cm.Text]; ok && uniq[cm.Text] == 1 {
+			P, Q, names = append(P, cm.Slash), append(Q, q), append(names, "comment "+cm.Text)
+		}
+	}
+	if known.GenericAlias([]byte(src)) {
+		// open finding KF-3: dst orders '=' before the type parameter list of a TypeSpec
+		h.KnownHit("KF-3")
+		return
+	}
+	rp, rq := ranks(P), ranks(Q)
+	for i := range rp {
+		if rp[i] != rq[i] {
+			// find a concrete inverted pair for the message
+			for j := range rp {
+				if (P[i] < P[j]) != (Q[i] < Q[j]) || (P[i] == P[j]) != (Q[i] == Q[j]) {
+					h.Fail(t, sub, c, "%s: relative order differs from a fresh parse: %s (restored %d, parsed %d) vs %s (restored %d, parsed %d)", name, names[i], P[i], Q[i], names[j], P[j], Q[j])
 				}
 			}
 		}
@@ -331,6 +340,119 @@ func genCase(sub string) func(t *rapid.T) (Case, bool) {
 		return c, true
 	}
 }
+
+// ImpCase: positions of an import-managed restore after edits that make the restorer rewrite the
+// import declarations (specs deleted, added, un-parenthesised).
+type ImpCase struct {
+	Libs        []gen.Lib         `json:"libs"`
+	Root        map[string]string `json:"root"`
+	Target      string            `json:"target"`
+	Donor       string            `json:"donor,omitempty"`
+	RemoveUses  []int             `json:"remove_uses"`
+	DropImports bool              `json:"drop_imports"`
+}
+
+func checkImp(t h.TB, c ImpCase) {
+	const sub = "ImportsEdited"
+	names := map[string]string{"example.com/root": "root"}
+	for _, l := range c.Libs {
+		names[l.ImportPath], names[l.FullPath] = l.Name, l.Name
+	}
+	p := &gen.Prog{Libs: c.Libs, Names: names}
+	imp, err := p.Importer()
+	if err != nil {
+		t.Fatalf("harness: %v", err)
+	}
+	ck, err := p.CheckSources(imp, "example.com/root", c.Root)
+	if err != nil {
+		t.Fatalf("harness: root does not type-check: %v", err)
+	}
+	dec := decorator.NewDecoratorWithImports(ck.Fset, "example.com/root", gotypes.New(ck.Info.Uses))
+	files := map[string]*dst.File{}
+	for n, af := range ck.Files {
+		df, err := dec.DecorateFile(af)
+		if err != nil {
+			h.Fail(t, sub, c, "DecorateFile: %v", err)
+		}
+		files[n] = df
+	}
+	tf := files[c.Target]
+	if c.Donor != "" && files[c.Donor] != nil {
+		for _, d := range files[c.Donor].Decls {
+			if gd, ok := d.(*dst.GenDecl); ok && gd.Tok == token.IMPORT {
+				continue
+			}
+			tf.Decls = append(tf.Decls, dst.Clone(d).(dst.Decl))
+		}
+	}
+	for _, li := range c.RemoveUses {
+		if li < 0 || li >= len(c.Libs) {
+			continue
+		}
+		var keep []dst.Decl
+		for _, d := range tf.Decls {
+			uses := false
+			dst.Inspect(d, func(n dst.Node) bool {
+				if id, ok := n.(*dst.Ident); ok && id.Path == c.Libs[li].ImportPath {
+					uses = true
+				}
+				return true
+			})
+			if !uses {
+				keep = append(keep, d)
+			}
+		}
+		tf.Decls = keep
+	}
+	if c.DropImports {
+		var keep []dst.Decl
+		for _, d := range tf.Decls {
+			if gd, ok := d.(*dst.GenDecl); ok && gd.Tok == token.IMPORT {
+				continue
+			}
+			keep = append(keep, d)
+		}
+		tf.Decls = keep
+	}
+	res := decorator.NewRestorerWithImports("example.com/root", simple.New(names))
+	fr := res.FileRestorer()
+	fr.Name = "restored.go"
+	var af *ast.File
+	h.Guard(t, sub, c, func() { af, err = fr.RestoreFile(tf) })
+	if err != nil {
+		h.Fail(t, sub, c, "RestoreFile: %v", err)
+	}
+	judgeFile(t, sub, c, res.Fset, af, "restored.go", c.Root[c.Target])
+}
+
+func genImp(t *rapid.T) (ImpCase, bool) {
+	const sub = "ImportsEdited"
+	p := gen.GenProg(t, 1, 2)
+	c := ImpCase{Libs: p.Libs, Root: p.RootSources("example.com/root"), DropImports: rapid.IntRange(0, 3).Draw(t, "drop") == 0}
+	var fn []string
+	for n := range c.Root {
+		fn = append(fn, n)
+	}
+	sort.Strings(fn)
+	c.Target = fn[rapid.IntRange(0, len(fn)-1).Draw(t, "target")]
+	if len(fn) > 1 && rapid.Bool().Draw(t, "donor") {
+		for _, n := range fn {
+			if n != c.Target {
+				c.Donor = n
+			}
+		}
+	}
+	for i, n := 0, rapid.IntRange(0, 3).Draw(t, "nremove"); i < n; i++ {
+		c.RemoveUses = append(c.RemoveUses, rapid.IntRange(0, len(p.Libs)-1).Draw(t, "lib"))
+	}
+	h.NonTrivial(sub, fmt.Sprint(c.Root), fmt.Sprint(c.Target, c.Donor, c.RemoveUses, c.DropImports))
+	h.Sample(sub, map[string]any{"target": h.Trunc(c.Root[c.Target], 300), "donor": c.Donor, "remove_uses": c.RemoveUses, "drop_imports": c.DropImports})
+	return c, true
+}
+
+var propImp = h.Prop("ImportsEdited", genImp, checkImp)
+
+func TestPropImportsEdited(t *testing.T) { rapid.Check(t, propImp) }
 
 var prop = h.Prop("Positions", genCase("Positions"), check("Positions"))
 
